@@ -277,3 +277,34 @@ def function_evaluate(expr, context):
     if expr.name == "search":
         return fn_search(value_argument(args[0]), value_argument(args[1]))
     return UNDEFINED
+
+
+# ---- C11: the entry points, stated over find-iter
+
+def findall_of(path, data, filter_context):
+    """find-all is the list of the values of find-iter."""
+    return [m.obj for m in path.finditer(data, filter_context=filter_context)]
+
+
+def match_of(path, data, filter_context):
+    """match is the first element of find-iter, or nothing."""
+    ms = list(path.finditer(data, filter_context=filter_context))
+    if len(ms) > 0:
+        return ms[0]
+    return None
+
+
+def env_findall(env, path, data, filter_context):
+    return env.compile(path).findall(data, filter_context=filter_context)
+
+
+def env_finditer(env, path, data, filter_context):
+    return env.compile(path).finditer(data, filter_context=filter_context)
+
+
+def env_match(env, path, data, filter_context):
+    return env.compile(path).match(data, filter_context=filter_context)
+
+
+def env_query(env, path, data, filter_context):
+    return env.compile(path).query(data, filter_context=filter_context)
